@@ -10,9 +10,9 @@
        its own actual parameter list ([pe_pspecs], the rhs_pspecs of a nested reference  Q {BOOLEAN});
      - asn1p_value_compare hands a value set to asn1p_constraint_compare, which is
        assert(!"Constraint comparison is not implemented")  — [CAbort];
-     - the table keeps a CLONE of the actual parameter list (asn1p_expr_clone), and asn1p_value_clone turns the
-       value NULL into "no value" (ATV_NULL -> calloc'ed ATV_NOVALUE): a list carrying the value NULL never
-       compares equal to its own stored copy ([vclone]).
+     - the table keeps a CLONE of the actual parameter list (asn1p_expr_clone / asn1p_value_clone: [eclone],
+       [vclone]); the clone of a value keeps its type (the value NULL included), so a list compares equal to its
+       own stored copy.
    Not modelled: ATV_TYPE / ATV_REAL values (no generated case carries them; REAL compares doubles with ==),
    the marker flags beyond an opaque number.  No proofs in this file. *)
 From Coq Require Import List Bool ZArith.
@@ -114,10 +114,9 @@ Fixpoint ecmp (a b : pexpr) : cres :=
    members are the actual parameters) *)
 Definition compare_specializations (a b : pexpr) : cres := ecmp a b.
 
-(* asn1p_value_clone / asn1p_expr_clone: the identity except on the value NULL *)
+(* asn1p_value_clone / asn1p_expr_clone: a structural copy *)
 Fixpoint vclone (v : pvalue) : pvalue :=
   match v with
-  | PVNull => PVNoValue
   | PVChoiceId i x => PVChoiceId i (vclone x)
   | _ => v
   end.
@@ -173,16 +172,6 @@ Definition onovs (v : option pvalue) : bool := match v with None => true | Some 
 Fixpoint novs (e : pexpr) : bool :=
   match e with
   | PE _ _ _ _ v _ _ d _ _ _ ms => onovs v && onovs d && forallb novs ms
-  end.
-
-(* neither a value set nor the value NULL in a compared position: the comparison is total and the stored clone is
-   indistinguishable from the original *)
-Fixpoint vstable (v : pvalue) : bool :=
-  match v with PVValueSet => false | PVNull => false | PVChoiceId _ x => vstable x | _ => true end.
-Definition ostable (v : option pvalue) : bool := match v with None => true | Some x => vstable x end.
-Fixpoint stable (e : pexpr) : bool :=
-  match e with
-  | PE _ _ _ _ v _ _ d _ _ _ ms => ostable v && ostable d && forallb stable ms
   end.
 
 (* the wrapper the parser builds for  { a1, ..., an } *)
